@@ -6,10 +6,12 @@ from . import gen as G
 from . import prov
 
 
-def file_spec(rng, kind=None, p_enc=0.0, max_len=300, with_config=False):
+def file_spec(rng, kind=None, p_enc=0.0, max_len=300, p_config=0.0):
     kind = kind or rng.choice(["bf3", "bf3", "bec2"])
     spec = {"kind": kind, "obj": G.bf3_spec(rng, max_comps=4, p_enc=p_enc, max_len=max_len),
             "via": rng.choice(["path", "stream"]), "rng": rng.getrandbits(32)}
+    if rng.random() < p_config:
+        spec["obj"]["config"] = G.config_spec(rng)
     if kind == "bf3":
         spec["key"] = G.session_key_spec(rng)
     else:
@@ -30,8 +32,8 @@ class Written:
 def write_file(fspec, fs, env, name, plan=None, observer=None):
     """Run the real writer.  Returns a Written record (or raises what the writer raised)."""
     w = Written()
-    w.model = G.model_of(fspec["obj"])
     obj = G.build_bf3(fspec["obj"], env)
+    w.model = G.snapshot_bf3(obj)
     w.rng = prov.SimRng(fspec.get("rng", 0), fspec.get("script"))
     env.install_rng(w.rng)
     if observer is not None:
